@@ -232,7 +232,9 @@ Inductive hstate := HOpen | HClosing | HClosed | HDead.   (* HDead: init failed,
 Record hrec := mkH { h_ty : htype; h_st : hstate }.
 
 Record mstate := mkM {
-  m_fixed : bool;          (* variant with notes/C15_fix_loop_init_leak.diff applied *)
+  m_fixed : bool;          (* true: the code as it is (after /repo 9298bc0 and 4ad4719);
+                              false: history - uv_loop_init's late failure exits leave backend_fd
+                              open, uv_spawn's unwind closes pipes[j][0] a second time *)
   m_ginit : bool;          (* uv__signal_global_init has run (uv_once) *)
   m_abort : bool;          (* the process called abort() *)
   m_kver : bool;           (* uv__kernel_version() has cached its answer (linux.c:300-360) *)
@@ -304,8 +306,8 @@ Definition platform_loop_delete {A} (l : nat) (c : prog A) : prog A :=
 (* uv__async_stop (async.c:326-357) *)
 Definition async_stop {A} (l : nat) (c : prog A) : prog A := close_field (OLoop l SAsync) c.
 
-(* what the failure exits of uv_loop_init do with backend_fd:
-   current code: nothing (loop.c:116-128); fixed variant: close it *)
+(* what the failure exits of uv_loop_init do with backend_fd: close it (loop.c:116-122,
+   "fail_signal_init:" since 9298bc0); before that commit: nothing *)
 Definition init_fail_tail (m : mstate) (l : nat) : prog (mstate * nat) :=
   if m_fixed m then close_field (OLoop l SBackend) (Ret (m, RC_ERR))
   else Ret (add_leak m l, RC_ERR).
@@ -580,7 +582,9 @@ Fixpoint spawn_pairs (i : nat) (sd : list sdesc) (k : bool -> prog (mstate * nat
 (* the "error:" label, process.c:1076-1092, applied to the pairs that still are in pipes[][] *)
 Definition spawn_error_temps {A} (c : prog A) : prog A := CloseIf is_temp false c.
 
-(* uv__process_close_stream for the containers before i, remembering pipes[j][0] *)
+(* uv__process_close_stream for the containers before i (process.c:1064-1067), which now also
+   resets pipes[j][0] = -1; before 4ad4719 the number stayed in pipes[][] and the "error:" loop
+   closed it a second time *)
 Fixpoint spawn_unwind (m : mstate) (done : list nat) (c : prog (mstate * nat)) : prog (mstate * nat) :=
   match done with
   | [] => c
@@ -589,7 +593,10 @@ Fixpoint spawn_unwind (m : mstate) (done : list nat) (c : prog (mstate * nat)) :
         CloseIf (own_is (OHandle sh HIo)) true
           (close_field (OHandle sh HAcc) (CloseIf (is_queued sh) false
             (spawn_unwind m r
-               (match x with Some fd => RawClose fd c | None => c end)))))
+               (match x with
+                | Some fd => if m_fixed m then c else RawClose fd c
+                | None => c
+                end)))))
   end.
 
 (* second loop, process.c:1057-1066: uv__process_open_stream per container *)
@@ -691,3 +698,5 @@ Definition user_ledger (fds : list (nat * bool)) : ledger :=
 
 Definition run (fixed : bool) (fds : list (nat * bool)) (os : list op) (orc : list ans) : mstate * ist :=
   run_ops os (minit fixed, mkI (user_ledger fds) orc []).
+(* the code as it is *)
+Definition run_current := run true.
